@@ -19,9 +19,16 @@ EXPLANATION = (
     "defined for all k in 1..=32 (the C18 audit restricted to that module: `1 << 2k` and `64 - 2k` at k = 32); (K3) in every loop of the modules that define the "
     "k-mers the properties speak about (k-mer enumeration, both segmenters, the second-pass splitter scans) a "
     "base is inserted into the window only under base <= 3 and the other arm resets the window before the next "
-    "iteration.  The shift/mask arithmetic of the sliding window itself is bit-level value reasoning and is "
-    "not decided.")
-UNDECIDED = "window-exactness of insert's shift/mask arithmetic for all k and sequences; reverse_complement_kmer's loop arithmetic"
+    "iteration; (K5) window-exactness of the sliding arithmetic: the bodies of Kmer::new, reset, insert and its three "
+    "mode-specific variants are interpreted over an abstract domain of 32 two-bit slots per word (a slot is a constant or "
+    "table[s] for a symbolic base s), for every k in 1..=32 and every fill level 0..=k; the induction step `window "
+    "invariant before insert => window invariant after insert, no overflow or shift assert trips` is checked in each "
+    "state, so by induction over the inserts since the last reset the forward word is exactly the last min(n,k) bases "
+    "left-aligned and the reverse word is their reverse complement, whatever the sequence - hence sliding value = value "
+    "computed from scratch, and (with K1) canonical = min of the two packings; (K6) reverse_complement_kmer maps "
+    "w1..wk to ~wk..~w1 for every k and is an involution, in the same domain (strand symmetry of canonical_kmer follows "
+    "with K1).  The evaluation is exact or refuses (carry between slots, odd shift, mask through a slot).")
+UNDECIDED = "that callers pass symbols 0..3 only outside the loops covered by K3; k outside 1..=32 (rejected by the CLI); Kmer::from_values / swap_dir_rc / get_symbol (not used to build windows)"
 
 K = "ragc_core::kmer::"
 
@@ -150,6 +157,8 @@ def run(F, rep):
         for o in sub.obligations:
             rep.ob("C20-K4", o["instance"], o["ok"], detail=o["detail"], site=o["site"], how=o["how"], key=o["key"].replace("C18-O", "C20-K4"))
         rep.floor("C20-K4", n4, 10, "shift / arithmetic sites of the k-mer module (functions the tool can reach)")
+    # ------------------------------------------------------------ K5 / K6: the sliding window in the 2-bit slot domain
+    _window_rules(F, rep)
     # notes: heuristic helpers outside the armed modules
     for f in F.funcs.values():
         if f.key.startswith("ragc_core::agc_compressor::") and any(is_call(t, r"kmer::Kmer::insert") for _, t in f.calls()):
@@ -168,3 +177,194 @@ def _arith_on_fields(f, names):
             if s["k"] == "assign" and s["rv"]["k"] == "binop" and s["rv"]["op"] not in ("Lt", "Le", "Gt", "Ge", "Eq", "Ne", "Cmp"):
                 bad.append(s["rv"]["op"])
     return bad
+
+
+def _call_on_self(F, f, selfv, *rest, trace=None):
+    """interpret a `&mut self` method: self lives in a cell of the environment so that writes are kept"""
+    from slots import SlotInterp
+    it = SlotInterp(F, max_steps=200000)
+    it.trace = trace
+    env = {1: ("ref", 9000, ()), 9000: selfv}
+    for i, a in enumerate(rest):
+        env[i + 2] = a
+    r = it.run(f, env, 0, None)
+    return r, env[9000]
+
+
+def window_evaluated(F):
+    """(function key, block) of every overflow / shift assert that the slot-domain evaluation executed without a panic,
+    in bodies all of whose states passed: these sites are defined for every k in 1..=32, every fill level 0..=k and every
+    symbol in 0..3 - the whole parameter space of the k-mer window.  Used by the overflow audits (C18-O, C20-K4)."""
+    ev = _window_eval(F)
+    if ev is None:
+        return set()
+    counts, results, comp, trace, fkeys = ev
+    good = {fk for label, fk in fkeys.items() if not results.get(label)}
+    bad = {fk for label, fk in fkeys.items() if results.get(label)}
+    return {(k, b) for (k, b) in trace if k in good and k not in bad}
+
+
+def _window_rules(F, rep):
+    """C20-K5: by induction over inserts, for every k in 1..=32 and every fill level n in 0..=k: if the forward word
+    holds the last n symbols left-aligned (oldest first) and the reverse word holds their complements in reverse order,
+    then after insert(x) the same holds for the window advanced by x (grown while n < k, oldest symbol dropped when
+    n = k); Kmer::new and reset establish the empty window.  C20-K6: reverse_complement_kmer maps the packed window
+    w1..wk to ~wk..~w1 for every k, and applying it twice gives the word back.  Both are decided by abstract
+    interpretation of the bodies in the slot domain (slots.py); symbols range over {0,1,2,3} (K3 guards the callers)."""
+    new = F.funcs.get(K + "Kmer::new")
+    reset = F.funcs.get(K + "Kmer::reset")
+    rcb = F.funcs.get(K + "reverse_complement")
+    ins = {m: F.funcs.get(K + "Kmer::" + m) for m in ("insert", "insert_canonical", "insert_direct", "insert_rev_comp")}
+    rck = F.funcs.get(K + "reverse_complement_kmer")
+    have = [x for x in [new, reset, rcb, rck] + list(ins.values()) if x is not None]
+    if not rep.floor("C20-K5", len(have), 8, "k-mer window bodies (new, reset, reverse_complement, 4 inserts, reverse_complement_kmer)"):
+        return
+    ev = _window_eval(F)
+    if ev is None:
+        rep.ob("C20-K5", "per-base complement can be tabulated", False, detail="undecidable construct in reverse_complement", key="C20-K5 | complement table")
+        return
+    counts, results, comp, trace, fkeys = ev
+    COMP = (3, 2, 1, 0)
+    _window_report(F, rep, counts, results, comp, new, reset, rcb, ins, rck)
+
+
+def _window_eval(F):
+    if getattr(F, "_c20_window", 0) != 0:
+        return F._c20_window
+    from slots import SlotInterp, Word, window_words, IDENT, NS
+    new = F.funcs.get(K + "Kmer::new")
+    reset = F.funcs.get(K + "Kmer::reset")
+    rcb = F.funcs.get(K + "reverse_complement")
+    ins = {m: F.funcs.get(K + "Kmer::" + m) for m in ("insert", "insert_canonical", "insert_direct", "insert_rev_comp")}
+    rck = F.funcs.get(K + "reverse_complement_kmer")
+    if any(x is None for x in [new, reset, rcb, rck] + list(ins.values())):
+        F._c20_window = None
+        return None
+    try:
+        comp = tuple(Interp(F).call(rcb, [v]) for v in range(4))
+    except (Undecidable, Panic) as e:
+        F._c20_window = None
+        return None
+    COMP = (3, 2, 1, 0)
+    trace = set()
+    fkeys = {}
+    modes = {"insert_canonical": "Canonical", "insert_direct": "Direct", "insert_rev_comp": "RevComp"}
+    # which word(s) each mode maintains
+    keeps = {"Canonical": ("kmer_dir", "kmer_rc"), "Direct": ("kmer_dir",), "RevComp": ("kmer_rc",)}
+    results = {}          # (function label) -> [failures]
+    counts = {}
+    def record(label, ok, why):
+        counts[label] = counts.get(label, 0) + 1
+        if not ok:
+            results.setdefault(label, []).append(why)
+    for k in range(1, 33):
+        for mode in ("Canonical", "Direct", "RevComp"):
+            var = {"__adt": K + "KmerMode", "__var": mode}
+            try:
+                it0 = Interp(F)
+                it0.trace = trace
+                fkeys["Kmer::new"] = new.key
+                st0 = it0.call(new, [k, var])
+                ok0 = (isinstance(st0, dict) and st0.get("kmer_dir") == 0 and st0.get("kmer_rc") == 0 and st0.get("cur_size") == 0 and st0.get("max_size") == k)
+                record("Kmer::new", ok0, "k=%d %s: %r" % (k, mode, {x: st0.get(x) for x in ("kmer_dir", "kmer_rc", "cur_size", "max_size")} if isinstance(st0, dict) else st0))
+            except (Undecidable, Panic) as e:
+                record("Kmer::new", False, "k=%d: %s" % (k, e))
+                continue
+            for n in range(0, k + 1):
+                D, R = window_words(k, n, COMP)
+                x = Word.sym("x")
+                # expected successor window
+                names = ["w%d" % (i + 1) for i in range(n)] + ["x"]
+                if len(names) > k:
+                    names = names[1:]
+                m = len(names)
+                eD = Word([(names[i], IDENT) if i < m else 0 for i in range(NS)])
+                eR = Word([(names[m - 1 - i], COMP) if i < m else 0 for i in range(NS)])
+                for entry in ("insert", [a for a, b in modes.items() if b == mode][0]):
+                    f = ins[entry]
+                    selfv = dict(st0)
+                    selfv["variant"] = dict(var)
+                    if "kmer_dir" in keeps[mode]:
+                        selfv["kmer_dir"] = D
+                    if "kmer_rc" in keeps[mode]:
+                        selfv["kmer_rc"] = R
+                    selfv["cur_size"] = n
+                    label = "Kmer::%s (%s)" % (entry, mode)
+                    fkeys[label] = f.key
+                    try:
+                        _, post = _call_on_self(F, f, selfv, x, trace=trace)
+                    except Panic as e:
+                        record(label, False, "k=%d n=%d: panics (%s)" % (k, n, e))
+                        continue
+                    except Undecidable as e:
+                        record(label, False, "k=%d n=%d: %s" % (k, n, e))
+                        continue
+                    bad = []
+                    if "kmer_dir" in keeps[mode] and post.get("kmer_dir") != eD:
+                        bad.append("forward word %r, expected %r" % (post.get("kmer_dir"), eD))
+                    if "kmer_rc" in keeps[mode] and post.get("kmer_rc") != eR:
+                        bad.append("reverse word %r, expected %r" % (post.get("kmer_rc"), eR))
+                    if post.get("cur_size") != m:
+                        bad.append("fill level %r, expected %d" % (post.get("cur_size"), m))
+                    for fld in ("max_size", "mask", "shift"):
+                        if post.get(fld) != st0.get(fld):
+                            bad.append("%s changed" % fld)
+                    record(label, not bad, "k=%d n=%d: %s" % (k, n, "; ".join(bad)))
+                # reset from any state gives the empty window
+                if mode == "Canonical":
+                    selfv = dict(st0, kmer_dir=D, kmer_rc=R, cur_size=n)
+                    try:
+                        fkeys["Kmer::reset"] = reset.key
+                        _, post = _call_on_self(F, reset, selfv, trace=trace)
+                        okr = lift_zero(post.get("kmer_dir")) and lift_zero(post.get("kmer_rc")) and post.get("cur_size") == 0 and post.get("mask") == st0.get("mask") and post.get("shift") == st0.get("shift")
+                        record("Kmer::reset", okr, "k=%d n=%d: %r" % (k, n, post))
+                    except (Undecidable, Panic) as e:
+                        record("Kmer::reset", False, "k=%d n=%d: %s" % (k, n, e))
+        # K6
+        D, R = window_words(k, k, COMP)
+        try:
+            it = SlotInterp(F, max_steps=200000)
+            it.trace = trace
+            fkeys["reverse_complement_kmer"] = rck.key
+            fkeys["reverse_complement_kmer twice"] = rck.key
+            r1 = it.call(rck, [D, k])
+            record("reverse_complement_kmer", r1 == R, "k=%d: %r, expected %r" % (k, r1, R))
+            it = SlotInterp(F, max_steps=200000)
+            r2 = it.call(rck, [r1, k]) if isinstance(r1, Word) else None
+            # ~~w = w: compose the per-slot tables
+            norm = Word([(x[0], tuple(COMP[COMP[v]] for v in range(4))) if not isinstance(x, int) and x[1] == tuple(COMP[COMP[v]] for v in range(4)) else x for x in r2.s]) if isinstance(r2, Word) else None
+            record("reverse_complement_kmer twice", r2 == D, "k=%d: %r, expected %r" % (k, r2, D))
+        except Panic as e:
+            record("reverse_complement_kmer", False, "k=%d: panics (%s)" % (k, e))
+        except Undecidable as e:
+            record("reverse_complement_kmer", False, "k=%d: %s" % (k, e))
+    # a dispatcher's verdict also covers the body it dispatched to
+    for label in list(results):
+        if label.startswith("Kmer::insert ("):
+            mode = label.split("(")[1].rstrip(")")
+            tgt = {"Canonical": "insert_canonical", "Direct": "insert_direct", "RevComp": "insert_rev_comp"}[mode]
+            results.setdefault("Kmer::%s (%s)" % (tgt, mode), []).extend(results[label])
+    F._c20_window = (counts, results, comp, trace, fkeys)
+    return F._c20_window
+
+
+def _window_report(F, rep, counts, results, comp, new, reset, rcb, ins, rck):
+    COMP = (3, 2, 1, 0)
+    rep.ob("C20-K5", "per-base complement used by the window is 0<->3, 1<->2", comp == COMP, detail=str(comp), site="%s:%d" % (rcb.file, rcb.line_lo), key="C20-K5 | complement table")
+    for label in sorted(counts):
+        fails = results.get(label, [])
+        rule = "C20-K6" if label.startswith("reverse_complement_kmer") else "C20-K5"
+        what = {"Kmer::new": "establishes the empty window (both words 0, fill 0) and its mask/shift let every insert below succeed",
+                "Kmer::reset": "returns to the empty window and keeps mask/shift",
+                "reverse_complement_kmer": "maps the packed window w1..wk to ~wk..~w1, left-aligned, nothing else set",
+                "reverse_complement_kmer twice": "is the identity on packed k-mers"}.get(label, "keeps the window invariant: forward word = last min(n+1,k) symbols oldest first, reverse word = their complements newest first, no stray bits, no overflow")
+        f = {"Kmer::new": new, "Kmer::reset": reset}.get(label) or (rck if label.startswith("reverse_complement_kmer") else ins[label.split("::")[1].split(" ")[0]])
+        rep.ob(rule, "%s %s, for every k in 1..=32%s" % (label, what, "" if rule == "C20-K6" or label == "Kmer::new" else " and every fill level"), not fails,
+               detail="%d abstract states checked in the 2-bit slot domain%s" % (counts[label], "" if not fails else "; first failure: " + fails[0][:300]),
+               site="%s:%d" % (f.file, f.line_lo), key="%s | %s" % (rule, label))
+    rep.stat("slot_domain_states", sum(counts.values()))
+
+
+def lift_zero(v):
+    from slots import Word
+    return v == 0 or (isinstance(v, Word) and v.is_const() and v.to_int() == 0)
